@@ -10,13 +10,17 @@ environment's choice as a parameter of every action.  TLC
       a transition cover (every labelled edge), seeded samples, and (thorough) every terminal behaviour of
       the reduced generation configuration are turned into scripts,
   (c) judges the observations of the real Authorize with the monitor OAuthFlowMon.
+The outcomes at the authorization-server metadata locations are independent: after a fatal outcome at one location the
+environment scripts the later ones too (UnreadASM), so "rejected document at location i, then 4xx at every later location"
+is replayed for every i and every fatal outcome (checked below); OAuthFlow_wit.cfg (discovery that goes on after a fatal
+outcome) must violate NoFallbackAfterRejected, which shows that the design invariant is not vacuous.
 """
 import json, os, random, sys
 from collections import deque
 import vlib, graphwalk
 
 PID = "C15"
-ACTIONS = ["Setup", "ParseChallenge", "FetchPRM", "FallbackRootAS", "FetchASM", "PredefinedEndpoints", "Register",
+ACTIONS = ["Setup", "ParseChallenge", "FetchPRM", "FallbackRootAS", "FetchASM", "UnreadASM", "PredefinedEndpoints", "Register",
            "GetCode", "CheckState", "CheckIss", "Exchange", "Install", "Finish"]
 RESULTS = ["ok", "nil403", "parse", "no_as", "asm", "prereg", "dcr", "noreg", "fetcher", "state", "iss", "exchange", "post"]
 SAFE = ("https", "lo")
@@ -26,6 +30,9 @@ LEAD_CFG = None  # "OAuthFlow_lead.cfg" when OAuthFlow.PRMLeadDocs is not empty
 ISS_MATCH = ("exact", "slash", "case", "dot")
 ISS_NEAR = ("port", "scheme", "userinfo", "query", "fragment", "hostsfx", "sub", "prefix")
 ISS_EQUIV = ("case", "dot")
+ASM_4XX = ("404", "401")
+# OAuthFlow!ASMList: the locations after a given one
+ASM_LATER = {"oauth": ["oidc"], "oauth_ins": ["oidc_ins", "oidc_app"], "oidc_ins": ["oidc_app"]}
 
 
 # --------------------------------------------------------------------------
@@ -189,6 +196,17 @@ def all_paths(root, edges, limit):
     return out
 
 
+def unread_key(steps):
+    """(location, fatal outcome, outcomes at the later locations) of a behaviour with an UnreadASM step"""
+    last = None
+    for name, args in steps:
+        if name == "FetchASM":
+            last = (args[0], args[1])
+        elif name == "UnreadASM" and last:
+            return last + (tuple(a for a in args if a != "-"),)
+    return None
+
+
 # --------------------------------------------------------------------------
 # signatures (the verdict is TLC's; this only names the abstract failing case)
 
@@ -229,6 +247,12 @@ def primary_sigs(e):
         pres.append(e["auth"]["pre"])
     if any(p != "unset" and p not in ISS_MATCH for p in pres):
         sigs.setdefault("PreregBoundToIssuer", set()).add("PreregBoundToIssuer:p=%s" % e["cfg"]["p"])
+    predef_as = {r["as"] for r in e["reqs"] if r["predef"]}
+    if e["auth"]["called"] and e["auth"]["predef"]:
+        predef_as.add(e["auth"]["as"])
+    for d in e["served"]:
+        if d["kind"] == "asm" and d["for"] in predef_as and not (d["match"] in ISS_MATCH and d["pkce"] and not d["script"]):
+            sigs.setdefault("NoFallbackAfterRejected", set()).add("NoFallbackAfterRejected:asm:%s@%s" % (d["var"], d["loc"]))
     return sigs, authsig
 
 
@@ -256,7 +280,11 @@ def run(tier, seed, replay):
         "query, fragment, host suffix or path (extra segment / strict prefix) is a different issuer; identifiers that differ only in the "
         "letter case of scheme/host or in a trailing dot after the host are neither required to match nor counted as a mismatch "
         "(for metadata and pre-registered credentials; the RFC 9207 iss parameter must be string-equal); resource identifiers must be identical",
-        "a served document counts as 'used' iff a later request URL or the authorization URL was taken or derived from it",
+        "a served document counts as 'used' iff a later request URL or the authorization URL was taken or derived from it; "
+        "the predefined (2025-03-26, server without metadata) endpoints of an authorization server are derived from every answer that "
+        "server gave at its well-known locations: a document among them that fails the issuer / PKCE / script-scheme check is a failed "
+        "check, not absent metadata (a 5xx, network or JSON failure, or an http-non-loopback endpoint in the document, followed by the "
+        "fallback is reported as drift only)",
         "URL classes (https / loopback / script-capable) are computed by the harness with net/url and net/netip",
     ]
     out = vlib.outdir(PID)
@@ -287,6 +315,12 @@ def run(tier, seed, replay):
         v.add_tlc(LEAD_CFG + " (lead documents included)", lead)
         leads = [lead.violation] if lead.violation else []
     v.cov["model_leads"] = leads
+    # 1c. sensitivity of the design invariant: a discovery that goes on after a fatal outcome must violate it
+    wit = vlib.run_tlc("OAuthFlowMC", "OAuthFlow_wit.cfg", workers=workers, timeout=600, heap_gb=4)
+    vlib.tlc_must_pass(wit, "OAuthFlow_wit.cfg")
+    v.add_tlc("OAuthFlow_wit.cfg (discovery goes on after a fatal outcome: NoFallbackAfterRejected must fail)", wit)
+    if wit.ok or wit.violation != "NoFallbackAfterRejected":
+        raise vlib.MachineryError("vacuity: OAuthFlow_wit.cfg does not violate NoFallbackAfterRejected (%s)" % wit.violation)
     # 2. behaviours
     wd = vlib.scratch("tlc-")
     dot = os.path.join(wd, "cover.dot")
@@ -339,6 +373,26 @@ def run(tier, seed, replay):
             rows += [{"id": "gen%d" % i, "steps": steps_of(p)} for i, p in enumerate(allp)]
             v.cov["gen_terminal_behaviours"] = len(allp)
             exhaustive = True
+    if not replay:
+        # vacuity: every fatal outcome at every location that is not the last one is replayed with 4xx at all later locations
+        # (the placement that tells a server whose metadata was REJECTED from a server WITHOUT metadata)
+        need = set()
+        for u, outs in edges.items():
+            for (l, w_) in outs:
+                name, args = graphwalk.parse_label(l)
+                if name == "FetchASM" and any(graphwalk.parse_label(l2)[0] == "UnreadASM" for (l2, _) in edges.get(w_, [])):
+                    need.add((args[0], args[1]))
+        have, nunread = set(), 0
+        for r in rows:
+            k = unread_key(r["steps"])
+            if k:
+                nunread += 1
+                if all(o in ASM_4XX for o in k[2]) and len(k[2]) == len(ASM_LATER[k[0]]):
+                    have.add(k[:2])
+        if not need or need - have:
+            raise vlib.MachineryError("vacuity: fatal outcome then 4xx at the later locations not replayed for %s" % sorted(need - have)[:10])
+        v.cov["unread_asm_behaviours"] = nunread
+        v.cov["fatal_then_4xx_placements"] = len(need)
     scripts = os.path.join(out, "scripts.ndjson")
     vlib.write_ndjson(scripts, rows)
     # 3. the real code
@@ -361,6 +415,7 @@ def run(tier, seed, replay):
     v.cov["rule"] = ("behaviours = root-to-leaf label sequences of the TLC state graph of OAuthFlow (modulo ghost variables): "
                      "a cover of every labelled edge + seeded samples (half uniform over the terminal behaviours, half random walks)"
                      + ("; plus every terminal behaviour of the reduced generation configuration" if tier == "thorough" else "")
+                     + "; every (well-known location, fatal outcome) is followed by 4xx at all later locations in at least one behaviour"
                      + "; distinct by step sequence; non-trivial = at least one metadata request is made")
     v.cov["exhaustive"] = exhaustive
     outcomes = {}
